@@ -5,7 +5,7 @@ From Coq Require Import ZArith List Bool Lia.
 From Synnax Require Import Cesium.Store Cesium.StoreProofs Cesium.IndexSearch Cesium.Distance
   Cesium.Stamp Cesium.DeleteModel Cesium.GCModel Cesium.DeleteBase Cesium.DeleteSearch
   Cesium.DeleteDistance Cesium.DeleteOffsets Cesium.DeleteContent Cesium.DeleteExact
-  Cesium.ReadExact Cesium.DeleteDB Cesium.GCProofs Cesium.DeleteCheck.
+  Cesium.ReadExact Cesium.DeleteDB Cesium.GCProofs Cesium.DeleteCheck Cesium.DeleteIndex.
 Import ListNotations.
 Local Open Scope Z_scope.
 
@@ -167,24 +167,42 @@ Proof.
   - intros H. rewrite (delete_index_keys fx t ix d1 d' e H). eapply delete_data_keys; eauto.
 Qed.
 
-(* one step of a history keeps the invariant: a successful DeleteTimeRange over data
-   channels, a GC pass at any threshold, a reopen *)
-Definition in_scope (d : db) (o : op) : Prop :=
+(* one step of a history keeps the invariant: a successful DeleteTimeRange over any channels,
+   a GC pass at any threshold, a reopen *)
+Definition in_scope (o : op) : Prop :=
   match o with
-  | ODelete chs _ _ => forall k, In k chs -> is_data d k
-  | OGC | OReopen => True
+  | ODelete _ _ _ | OGC | OReopen => True
   | OWrite _ _ => False
   end.
 
 Theorem step_keeps_invariant g d o d' :
-  db_ok d -> NoDup (map fst d) -> in_scope d o -> step true g d o = (d', None) ->
+  db_ok d -> NoDup (map fst d) -> in_scope o -> step true g d o = (d', None) ->
   db_ok d' /\ NoDup (map fst d').
 Proof.
   intros Hok Hnd Hs. destruct o as [start ws|chs a b| |]; simpl in *.
   - contradiction.
   - intros Hd. split.
-    + apply (delete_data_channels_exact d chs a b d' Hok Hs Hd).
+    + apply (delete_exact_general d chs a b d' Hok Hd).
     + rewrite (delete_time_range_keys _ _ _ _ _ _ Hd). exact Hnd.
   - intros [= <-]. apply gc_db_ok; assumption.
   - intros [= <-]. apply reopen_db_ok; assumption.
+Qed.
+
+(* whole histories of deletes, GC passes and reopens, from any state satisfying the invariant
+   (e.g. any state produced by writes that the check db_okb accepts) *)
+Fixpoint run_ok (g : gcfg) (d : db) (ops : list op) : Prop :=
+  match ops with
+  | [] => True
+  | o :: r => in_scope o /\ snd (step true g d o) = None /\ run_ok g (fst (step true g d o)) r
+  end.
+
+Theorem history_keeps_invariant g : forall ops d,
+  db_ok d -> NoDup (map fst d) -> run_ok g d ops ->
+  db_ok (run true g d ops) /\ NoDup (map fst (run true g d ops)).
+Proof.
+  induction ops as [|o r IH]; intros d Hok Hnd Hr; simpl; [auto|].
+  destruct Hr as (Hs & He & Hr).
+  destruct (step true g d o) as [d1 e] eqn:Es. simpl in *. subst e.
+  destruct (step_keeps_invariant g d o d1 Hok Hnd Hs Es) as [Hok1 Hnd1].
+  apply IH; assumption.
 Qed.
